@@ -303,9 +303,42 @@ def gen_block(r, meth, cmds, styles):
 STYLES = ["huff", "huff", "huff", "extra", "deep", "random", "single"]
 
 
+def gen_ringend(r, meth):
+    """a copy whose LAST byte lands in the last slot of the history ring (the write position wraps to 0 exactly at the end of the
+    command), one byte earlier and one byte later; then a few more bytes and copies that look back across the seam"""
+    ob, nc, moc, ring, lhark = FMT[meth]
+    cmds, produced = gen_cmds(r, meth, 40, 0, "mixed")
+    delta = r.choice([0, 0, 0, -1, 1])
+    turns = r.choice([1, 1, 2]) if ring <= (1 << 16) else 1
+    goal = turns * ring + delta
+    while produced < goal - 900:
+        more, produced = gen_cmds(r, meth, 1, produced, "copies")
+        cmds += more
+    n = r.choice([3, 4, 17, 100, 255, 256])
+    while produced < goal - n:
+        cmds.append("L%02x" % r.randrange(256)); produced += 1
+        if goal - n - produced > 300:
+            cmds.append("C%d.256" % r.randrange(0, 50)); produced += 256
+    n = goal - produced
+    d = r.choice([0, 0, 0, 1, 2, n - 1, n, r.randrange(ring)])
+    cmds.append("C%d.%d" % (max(0, min(d, ring - 1)), n)); produced += n
+    for _ in range(r.choice([1, 2, 5])):
+        cmds.append("L%02x" % r.randrange(256)); produced += 1
+    for d in [0, 1, r.randrange(0, 8), r.randrange(0, 8), ring - 1, ring - 2]:
+        k = r.randrange(3, 12)
+        cmds.append("C%d.%d" % (d, k)); produced += k
+        cmds.append("L%02x" % r.randrange(256)); produced += 1
+    blocks = []
+    for i in range(0, len(cmds), 60000):
+        blocks.append(gen_block(r, meth, cmds[i:i + 60000], ("huff", "huff", r.choice(STYLES))))
+    return "/".join(blocks), {"size=ring-end", "ring-end%+d" % delta, "blocks=%d" % len(blocks)}, produced
+
+
 def gen_stream(r, meth, size_class="small"):
     """returns (description string, tags)"""
     tags = set()
+    if size_class == "ringend":
+        return gen_ringend(r, meth)
     if size_class == "small":
         nblocks = r.choice([1, 1, 2, 3, 5])
         sizes = [r.choice([0, 1, 2, 3, 8, 30, 200]) for _ in range(nblocks)]
